@@ -60,12 +60,45 @@ def scan(chk, r, cases, ratios, max_pto):
             chk.search_case("ffns_minus_ffn0_decays", ok, what=f"{name} {process} order {k[0]}: FFNS-FFN0 does not vanish like a power of m2/Q2", data=sample, sample=sample, nontrivial=abs(d0) > floor)
 
 
+def search_mirror(chk, r, n):
+    """on the real Combiner: FFN0 kernels carry the weights of their FFNS counterparts"""
+    import yadism
+    from yadism.coefficient_functions import Combiner
+
+    for t, o in corr_weights.combiner_configs(r, n, schemes=["FFNS", "FONLL-FFNS"]):
+        t0 = dict(t, FNS=t["FNS"].replace("FFNS", "FFN0"))
+        try:
+            ra, rb = yadism.Runner(t, o), yadism.Runner(t0, o)
+        except Exception:
+            continue
+        for name in ra.observables:
+            for ea, eb in zip(ra.observables[name].elements[:1], rb.observables[name].elements[:1]):
+                try:
+                    ka = corr_weights.canon_py_kernels([k for comp in Combiner(ea).collect() for k in comp])
+                    kb = corr_weights.canon_py_kernels([k for comp in Combiner(eb).collect() for k in comp])
+                except Exception as e:
+                    chk.extra.setdefault("search_exceptions", {})
+                    kk = f"mirror:{type(e).__name__}:{str(e)[:60]}"
+                    chk.extra["search_exceptions"][kk] = chk.extra["search_exceptions"].get(kk, 0) + 1
+                    continue
+                # weight maps present on the massive side, per (family-agnostic) heavy quark
+                def wset(ks, fams):
+                    return {tuple(round(v, 13) for v in w) for kid, w in ks if kid[0] in fams and any(w)}
+
+                massive = wset(ka, ("heavy", "intrinsic"))
+                asy = wset(kb, ("asy",))
+                missing = [x for x in asy if x not in massive]
+                sample = dict(obs=name, FNS=t["FNS"], NfFF=t["NfFF"], process=o["prDIS"], pto_evol=t["PTO"], n_massive=len(massive), n_asy=len(asy), unmatched=len(missing))
+                chk.search_case("ffn0_weights_mirror_ffns", not missing, what=f"{name} {o['prDIS']}: an asymptotic kernel carries weights no massive kernel has", data=sample, sample=sample, nontrivial=len(asy) > 0)
+
+
 def run(tier):
     chk = common.Check("C08", tier)
     thorough = tier == "thorough"
     common.lean_proof_step(chk, "YadismModel.Properties.C08", thorough=thorough)
     r = common.rng("C08")
-    corr_weights.run_combiner(chk, 250 if thorough else 25, r, schemes=["FFNS", "FFN0", "FONLL-FFNS", "FONLL-FFN0"])
+    corr_weights.run_combiner(chk, 250 if thorough else 25, r, mode="ids", schemes=["FFNS", "FFN0", "FONLL-FFNS", "FONLL-FFN0"])
+    search_mirror(chk, r, 150 if thorough else 20)
     quick_cases = [("CC", "F2", "charm", "neutrino"), ("EM", "F2", "charm", "electron"), ("NC", "F3", "charm", "electron"), ("CC", "F3", "charm", "antineutrino")]
     more = [("CC", "FL", "charm", "neutrino"), ("EM", "FL", "charm", "electron"), ("NC", "F2", "bottom", "positron"), ("EM", "F2", "light", "electron"), ("EM", "F2", "total", "electron"), ("CC", "F2", "bottom", "electron"), ("NC", "g1", "charm", "electron"), ("CC", "F2", "total", "neutrino")]
     if thorough:
